@@ -516,3 +516,307 @@ Proof.
     + intros i. apply Hc. apply ctx_of_equiv. exact E.
     + exact (ce_group_indices _ _ (ctx_of_equiv a b n KSelf E)).
 Qed.
+
+(* ====================================================================== PART 3 : run_all on weakly isomorphic functions *)
+Lemma peq_refl_teq {T} (teq : T -> T -> bool) (s : list (nat * T)) :
+  (forall a, teq a a = true) -> SolverLemmas.peq T teq s s.
+Proof.
+  intros Hr. split; [reflexivity|]. intros b v1 v2 E1 E2. rewrite E1 in E2. inversion E2. apply Hr.
+Qed.
+
+Lemma zmax_fold_spec : forall l a,
+  (a <= fold_left Z.max l a)%Z /\ (forall x, In x l -> (x <= fold_left Z.max l a)%Z) /\
+  (fold_left Z.max l a = a \/ In (fold_left Z.max l a) l).
+Proof.
+  induction l as [|y l IH]; intros a.
+  - cbn [fold_left]. split; [lia|]. split; [intros x []|left; reflexivity].
+  - cbn [fold_left]. destruct (IH (Z.max a y)) as [H1 [H2 H3]]. split; [lia|]. split.
+    + intros x [<-|Hx]; [lia|exact (H2 x Hx)].
+    + destruct H3 as [H3|H3]; [|right; right; exact H3].
+      destruct (Z.max_spec a y) as [[_ E]|[_ E]]; rewrite E in H3 |- *.
+      * right. left. symmetry. exact H3.
+      * left. exact H3.
+Qed.
+
+(* the largest possible group size depends on the set only *)
+Lemma zmax_default_seteq l l' : seteq l l' -> zmax_default l = zmax_default l'.
+Proof.
+  intros H. unfold zmax_default.
+  destruct (zmax_fold_spec l 0%Z) as [A1 [A2 A3]]. destruct (zmax_fold_spec l' 0%Z) as [B1 [B2 B3]].
+  assert (L1 : (fold_left Z.max l 0 <= fold_left Z.max l' 0)%Z).
+  { destruct A3 as [A3|A3]; [lia|]. apply B2. apply H. exact A3. }
+  assert (L2 : (fold_left Z.max l' 0 <= fold_left Z.max l 0)%Z).
+  { destruct B3 as [B3|B3]; [lia|]. apply A2. apply H. exact B3. }
+  lia.
+Qed.
+
+Lemma seq_outcomes_rel {A B C} (R : B -> C -> Prop) (l : list A) (G : A -> outcome B) (G' : A -> outcome C) :
+  (forall a b c, In a l -> G a = Done b -> G' a = Done c -> R b c) ->
+  forall rs rs', seq_outcomes l G = Done rs -> seq_outcomes l G' = Done rs' -> Forall2 R rs rs'.
+Proof.
+  unfold seq_outcomes. induction l as [|a l IH]; intros HR rs rs' E1 E2.
+  - cbn [fold_right] in E1, E2. inversion E1; inversion E2. constructor.
+  - cbn [fold_right] in E1, E2.
+    destruct (fold_right _ (Done []) l) as [q| |] eqn:Q1 in E1; try discriminate E1.
+    destruct (fold_right _ (Done []) l) as [q'| |] eqn:Q2 in E2; try discriminate E2.
+    destruct (G a) as [b| |] eqn:Ga; try discriminate E1. destruct (G' a) as [c| |] eqn:Ga'; try discriminate E2.
+    inversion E1; inversion E2. constructor.
+    + apply (HR a b c); [left; reflexivity|exact Ga|exact Ga'].
+    + apply IH; [intros a0 b0 c0 Hin; apply HR; right; exact Hin|exact Q1|exact Q2].
+Qed.
+
+Lemma Forall2_map_l {A B C} (R : B -> C -> Prop) (h : A -> B) l l' :
+  Forall2 (fun a c => R (h a) c) l l' -> Forall2 R (map h l) l'.
+Proof. intros H. induction H; cbn [map]; constructor; assumption. Qed.
+
+Lemma Forall2_concat_map {A B C} (R : B -> C -> Prop) (h : A -> B) ls ls' :
+  Forall2 (fun l l' => Forall2 R (map h l) l') ls ls' -> Forall2 R (map h (concat ls)) (concat ls').
+Proof.
+  intros H. induction H as [|l l' ls ls' H1 _ IH]; [constructor|].
+  cbn [concat]. rewrite map_app. apply Forall2_app; assumption.
+Qed.
+
+(* the at-index refinement of Domains.run_family *)
+Definition refine1 {T} (null : T) (inter : T -> T -> T) (indices : list (nat * list Z)) (base : list (nat * T)) (i : N)
+  : nat * T -> nat * T :=
+  fun '(b, c) =>
+    let gi := match Analysis.lookup _ indices b with Some l => l | None => [] end in
+    if zmem (Z.of_N i) gi
+    then (b, inter c (match Analysis.lookup _ base b with Some v => v | None => null end))
+    else (b, null).
+
+Lemma refine1_fst {T} (null : T) inter indices base i b c : fst (refine1 null inter indices base i (b, c)) = b.
+Proof. unfold refine1. cbv zeta. destruct (zmem _ _); reflexivity. Qed.
+
+(* _store_results of the group indices *)
+Definition below_size (sizes : list (nat * list Z)) : nat * list Z -> nat * list Z :=
+  fun '(b, gi) =>
+    let gs := match Analysis.lookup _ sizes b with Some l => l | None => [] end in
+    (b, filter (fun i => Z.ltb i (zmax_default gs)) gi).
+
+Section WRunAll.
+  Variables r g : nat -> nat.
+  Variables f f' : func.
+  Hypothesis W : fiso_w r g f f'.
+  Hypothesis Hwf : graph_wf f' = true.
+  Variables fu fu' : nat.
+
+  Let ISO := isow_iso r g f f' W.
+
+  Lemma w_intcs : fn_intcs f' = fn_intcs f.
+  Proof. exact (iso_intcs r g f _ ISO). Qed.
+
+  Lemma w_lookup {T} (st : list (nat * T)) b : Analysis.lookup T (ren_st r st) (r b) = Analysis.lookup T st b.
+  Proof. exact (iso_lookup r g T f _ ISO st b). Qed.
+
+  Lemma map_fst_keep {T} (h : nat * T -> nat * T) s : (forall b c, fst (h (b, c)) = b) -> map fst (map h s) = map fst s.
+  Proof. intros Hh. rewrite map_map. apply map_ext. intros [b c]. apply Hh. Qed.
+
+  Lemma map_fst_ren {T} (s : list (nat * T)) : map fst (ren_st r s) = map r (map fst s).
+  Proof. unfold ren_st. rewrite !map_map. reflexivity. Qed.
+
+  (* key-preserving maps over states that are equal up to the renaming and the domain equality *)
+  Lemma keep_peq {T} (teq : T -> T -> bool) (h h' : nat * T -> nat * T) s s' :
+    (forall b c, fst (h (b, c)) = b) -> (forall b c, fst (h' (b, c)) = b) ->
+    SolverLemmas.peq T teq (ren_st r s) s' ->
+    (forall k c c', Analysis.lookup T s k = Some c -> Analysis.lookup T s' (r k) = Some c' -> teq c c' = true ->
+                    teq (snd (h (k, c))) (snd (h' (r k, c'))) = true) ->
+    SolverLemmas.peq T teq (ren_st r (map h s)) (map h' s').
+  Proof.
+    intros Hh Hh' [Hk Hv] Hrel. split.
+    - rewrite map_fst_ren, (map_fst_keep h s Hh), (map_fst_keep h' s' Hh'), <- Hk, map_fst_ren. reflexivity.
+    - intros k v1 v2 E1 E2.
+      destruct (lookup_ren_inv T r g f f' W _ k v1 E1) as [k0 [-> E1']].
+      rewrite (lookup_map_keep h Hh) in E1'. rewrite (lookup_map_keep h' Hh') in E2.
+      destruct (Analysis.lookup T s k0) as [c|] eqn:Ec; [|discriminate E1'].
+      destruct (Analysis.lookup T s' (r k0)) as [c'|] eqn:Ec'; [|discriminate E2].
+      cbn [option_map] in E1', E2. inversion E1'; inversion E2.
+      apply Hrel; [exact Ec|exact Ec'|]. apply (Hv (r k0)); [rewrite w_lookup; exact Ec|exact Ec'].
+  Qed.
+
+  Lemma okst_keep {T} (P : T -> Prop) (h : nat * T -> nat * T) s :
+    (forall b c, fst (h (b, c)) = b) -> okst T P s -> (forall b c, P c -> P (snd (h (b, c)))) -> okst T P (map h s).
+  Proof.
+    intros Hh Ho Hp b v E. rewrite (lookup_map_keep h Hh) in E.
+    destruct (Analysis.lookup T s b) as [c|] eqn:Ec; [|discriminate E]. cbn [option_map] in E. inversion E.
+    apply Hp. exact (Ho b c Ec).
+  Qed.
+
+  (* ---------------------------------------------------------------- group sizes / indices *)
+  Lemma wiso_run_int size lo lo' :
+    run_int f fu size = Done lo -> run_int f' fu' size = Done lo' ->
+    SolverLemmas.peq (list Z) zset_eqb (ren_st r lo) lo'.
+  Proof.
+    unfold run_int. cbv zeta. rewrite w_intcs.
+    rewrite (wiso_init_constraints r g f f' (list Z) _ _ zunion zinter (int_single size (fn_intcs f)) W
+               (iso_int_single g size (fn_intcs f))).
+    destruct (init_constraints (list Z) _ _ zunion zinter (int_single size (fn_intcs f)) f) as [bc|];
+      [|intros H; discriminate H].
+    cbn [option_map]. intros S1 S2.
+    apply (wiso_solve_int size (fn_intcs f) (if size then int_universal_groupsize else int_universal_groupindex)
+             r g f f' bc (ren_st r bc) fu fu' lo lo' W Hwf); [|exact S1|exact S2].
+    apply peq_refl_teq. intros a. apply zset_eqb_spec. intros x. tauto.
+  Qed.
+
+  Lemma below_size_peq sizes sizes' idx idx' :
+    SolverLemmas.peq (list Z) zset_eqb (ren_st r sizes) sizes' ->
+    SolverLemmas.peq (list Z) zset_eqb (ren_st r idx) idx' ->
+    SolverLemmas.peq (list Z) zset_eqb (ren_st r (map (below_size sizes) idx)) (map (below_size sizes') idx').
+  Proof.
+    intros Hs Hx. apply keep_peq; try (intros b c; reflexivity); [exact Hx|].
+    intros k c c' _ _ Hc. unfold below_size. cbv zeta. cbn [snd].
+    pose proof (wpeq_bc_eqv _ _ _ _ Hs (r k)) as Hb. rewrite w_lookup in Hb.
+    assert (Em : zmax_default (match Analysis.lookup _ sizes k with Some l => l | None => [] end) =
+                 zmax_default (match Analysis.lookup _ sizes' (r k) with Some l => l | None => [] end)).
+    { apply zmax_default_seteq.
+      destruct (Analysis.lookup _ sizes k); destruct (Analysis.lookup _ sizes' (r k)); try contradiction;
+        [apply zset_eqb_seteq; exact Hb|apply seteq_refl]. }
+    rewrite Em. apply zset_eqb_spec. intros x. rewrite !filter_In. rewrite (zset_eqb_seteq _ _ Hc x). tauto.
+  Qed.
+
+  (* ---------------------------------------------------------------- one family of keys, any domain with the laws *)
+  Section Family.
+    Variable T : Type.
+    Variable t_eqb : T -> T -> bool.
+    Variable univ null : T.
+    Variable union inter : T -> T -> T.
+    Variable P : T -> Prop.
+    Variable leq : T -> T -> Prop.
+    Hypothesis L : WLaws t_eqb univ null union inter P leq.
+    Variable single : keyfam -> instr -> nat -> list sval -> T * T.
+    Hypothesis Hs : forall fam op pos args, P (fst (single fam op pos args)) /\ P (snd (single fam op pos args)).
+    Hypothesis Hpos : forall fam op pos args,
+      single fam op (g pos) (map (shift_sval g) args) = single fam op pos args.
+
+    Lemma init_okst fam bc : init_constraints T univ null union inter (single fam) f = Some bc -> okst T P bc.
+    Proof.
+      intros Hi b v Hl.
+      exact (init_constraints_closed T univ null union inter (single fam) P
+               (wl_P_univ _ _ _ _ _ _ _ L) (wl_P_null _ _ _ _ _ _ _ L) (wl_P_union _ _ _ _ _ _ _ L)
+               (wl_P_inter _ _ _ _ _ _ _ L) (Hs fam) f bc b v Hi Hl).
+    Qed.
+
+    Lemma dflt_P (s : list (nat * T)) b : okst T P s -> P (match Analysis.lookup T s b with Some v => v | None => null end).
+    Proof.
+      intros Ho. destruct (Analysis.lookup T s b) as [v|] eqn:E; [exact (Ho b v E)|exact (wl_P_null _ _ _ _ _ _ _ L)].
+    Qed.
+
+    Lemma refine_peq indices indices' base base' i bc :
+      okst T P bc -> okst T P base -> okst T P base' ->
+      SolverLemmas.peq (list Z) zset_eqb (ren_st r indices) indices' ->
+      SolverLemmas.peq T t_eqb (ren_st r base) base' ->
+      SolverLemmas.peq T t_eqb (ren_st r (map (refine1 null inter indices base i) bc))
+                       (map (refine1 null inter indices' base' i) (ren_st r bc)) /\
+      okst T P (map (refine1 null inter indices base i) bc) /\
+      okst T P (map (refine1 null inter indices' base' i) (ren_st r bc)).
+    Proof.
+      intros Obc Ob Ob' Hi Hb.
+      assert (Hok : forall ind bs, okst T P bs -> forall b c, P c -> P (snd (refine1 null inter ind bs i (b, c)))).
+      { intros ind bs Obs b c Pc. unfold refine1. cbv zeta. destruct (zmem _ _); cbn [snd].
+        - apply (wl_P_inter _ _ _ _ _ _ _ L); [exact Pc|apply dflt_P; exact Obs].
+        - exact (wl_P_null _ _ _ _ _ _ _ L). }
+      split; [|split].
+      - apply keep_peq; try (intros b c; apply refine1_fst).
+        + apply peq_refl_teq. exact (wl_teq_refl _ _ _ _ _ _ _ L).
+        + intros k c c' Ec Ec' _. rewrite w_lookup in Ec'. rewrite Ec in Ec'. inversion Ec'; subst c'.
+          assert (Pc : P c) by exact (Obc k c Ec).
+          unfold refine1. cbv zeta.
+          pose proof (wpeq_bc_eqv _ _ _ _ Hi (r k)) as Hik. rewrite w_lookup in Hik.
+          assert (Ez : zmem (Z.of_N i) (match Analysis.lookup _ indices k with Some l => l | None => [] end) =
+                       zmem (Z.of_N i) (match Analysis.lookup _ indices' (r k) with Some l => l | None => [] end)).
+          { apply zmem_seteq.
+            destruct (Analysis.lookup _ indices k); destruct (Analysis.lookup _ indices' (r k)); try contradiction;
+              [apply zset_eqb_seteq; exact Hik|apply seteq_refl]. }
+          rewrite <- Ez. destruct (zmem _ _); cbn [snd]; [|apply (wl_teq_refl _ _ _ _ _ _ _ L)].
+          apply (w_inter_cong T t_eqb inter P leq (wl_P_inter _ _ _ _ _ _ _ L) (wl_teq_leq _ _ _ _ _ _ _ L)
+                   (wl_inter_mono _ _ _ _ _ _ _ L)); try exact Pc; try (apply dflt_P; assumption).
+          * apply (wl_teq_refl _ _ _ _ _ _ _ L).
+          * pose proof (wpeq_bc_eqv _ _ _ _ Hb (r k)) as Hbk. rewrite w_lookup in Hbk.
+            destruct (Analysis.lookup T base k); destruct (Analysis.lookup T base' (r k)); try contradiction;
+              [exact Hbk|apply (wl_teq_refl _ _ _ _ _ _ _ L)].
+      - apply okst_keep; [intros b c; apply refine1_fst|exact Obc|apply Hok; exact Ob].
+      - apply okst_keep; [intros b c; apply refine1_fst|apply (okst_ren T P r g f f' W); exact Obc|apply Hok; exact Ob'].
+    Qed.
+
+    Theorem wiso_run_family indices indices' res res' :
+      SolverLemmas.peq (list Z) zset_eqb (ren_st r indices) indices' ->
+      run_family f fu t_eqb univ null union inter single indices = Done res ->
+      run_family f' fu' t_eqb univ null union inter single indices' = Done res' ->
+      fam_equiv t_eqb (ren_fam r res) res'.
+    Proof.
+      intros Hi. unfold run_family.
+      rewrite (wiso_init_constraints r g f f' T univ null union inter (single KSelf) W (Hpos KSelf)).
+      destruct (init_constraints T univ null union inter (single KSelf) f) as [bc0|] eqn:I0;
+        [|intros H; discriminate H].
+      cbn [option_map].
+      destruct (solve T t_eqb univ null union inter (single KSelf) f fu bc0) as [base| |] eqn:S1;
+        try (intros H; discriminate H).
+      destruct (solve T t_eqb univ null union inter (single KSelf) f' fu' (ren_st r bc0)) as [base'| |] eqn:S2;
+        try (intros _ H; discriminate H).
+      assert (O0 : okst T P bc0) by exact (init_okst KSelf bc0 I0).
+      destruct (wiso_solve_L T t_eqb univ null union inter P leq L (single KSelf) r g f f' bc0 (ren_st r bc0)
+                  fu fu' base base' (Hs KSelf) (Hpos KSelf) W Hwf O0 (okst_ren T P r g f f' W bc0 O0)
+                  (peq_refl_teq t_eqb _ (wl_teq_refl _ _ _ _ _ _ _ L)) S1 S2) as [Hb Ob'].
+      assert (Ob : okst T P base).
+      { apply solve_passes in S1. destruct S1 as [ro [F1 B1]].
+        assert (Oro : okst T P ro).
+        { refine (forward_okst T t_eqb univ null union inter (single KSelf) P leq
+                    (wl_P_univ _ _ _ _ _ _ _ L) (wl_P_null _ _ _ _ _ _ _ L) (wl_P_union _ _ _ _ _ _ _ L)
+                    (wl_P_inter _ _ _ _ _ _ _ L) (Hs KSelf) (wl_leq_refl _ _ _ _ _ _ _ L)
+                    (wl_leq_trans _ _ _ _ _ _ _ L) (wl_union_ub_l _ _ _ _ _ _ _ L) (wl_union_ub_r _ _ _ _ _ _ _ L)
+                    (wl_union_lub _ _ _ _ _ _ _ L) f _ _ _ _ ro O0 _ F1).
+          apply okst_blocks. intros; exact (wl_P_null _ _ _ _ _ _ _ L). }
+        refine (backward_okst T t_eqb null union inter P leq (wl_P_null _ _ _ _ _ _ _ L) (wl_P_union _ _ _ _ _ _ _ L)
+                  (wl_P_inter _ _ _ _ _ _ _ L) (wl_leq_refl _ _ _ _ _ _ _ L)
+                  (wl_leq_trans _ _ _ _ _ _ _ L) (wl_union_ub_l _ _ _ _ _ _ _ L) (wl_union_ub_r _ _ _ _ _ _ _ L)
+                  (wl_union_lub _ _ _ _ _ _ _ L) f _ _ _ _ base Oro _ B1).
+        apply (okst_bwd_st0 T null P (wl_P_null _ _ _ _ _ _ _ L)). exact Oro. }
+      match goal with
+      | |- match seq_outcomes ?l ?G with _ => _ end = _ -> match seq_outcomes _ ?G' with _ => _ end = _ -> _ =>
+          destruct (seq_outcomes l G) as [rest| |] eqn:Q1; try (intros H; discriminate H);
+          destruct (seq_outcomes l G') as [rest'| |] eqn:Q2; try (intros _ H; discriminate H);
+          pose proof (seq_outcomes_rel
+                        (fun (kv kv' : keyfam * list (nat * T)) =>
+                           fst kv = fst kv' /\ SolverLemmas.peq T t_eqb (ren_st r (snd kv)) (snd kv'))
+                        l G G') as HR
+      end.
+      intros R1 R2. inversion R1; inversion R2. unfold ren_fam. cbn [map]. constructor.
+      - cbn [fst snd]. split; [reflexivity|exact Hb].
+      - apply Forall2_map_l. cbn [fst snd]. refine (HR _ rest rest' Q1 Q2). clear HR Q1 Q2 R1 R2.
+        intros fam b c _.
+        rewrite (wiso_init_constraints r g f f' T univ null union inter (single fam) W (Hpos fam)).
+        destruct (init_constraints T univ null union inter (single fam) f) as [bc|] eqn:If;
+          [|intros H; discriminate H].
+        cbn [option_map].
+        assert (Obc : okst T P bc) by exact (init_okst fam bc If).
+        assert (HX : exists bcf bcf',
+                   SolverLemmas.peq T t_eqb (ren_st r bcf) bcf' /\ okst T P bcf /\ okst T P bcf' /\
+                   bcf = match fam with
+                         | KAtIndex i => map (refine1 null inter indices base i) bc
+                         | _ => bc end /\
+                   bcf' = match fam with
+                          | KAtIndex i => map (refine1 null inter indices' base' i) (ren_st r bc)
+                          | _ => ren_st r bc end).
+        { destruct fam as [|i| |];
+            try (exists bc, (ren_st r bc); split; [apply peq_refl_teq; exact (wl_teq_refl _ _ _ _ _ _ _ L)|];
+                 split; [exact Obc|]; split; [apply (okst_ren T P r g f f' W); exact Obc|]; split; reflexivity).
+          destruct (refine_peq indices indices' base base' i bc Obc Ob Ob' Hi Hb) as [X1 [X2 X3]].
+          eexists. eexists. split; [exact X1|]. split; [exact X2|]. split; [exact X3|]. split; reflexivity. }
+        destruct HX as [bcf [bcf' [Xp [Xo [Xo' [E1 E2]]]]]].
+        subst bcf bcf'.
+        match goal with
+        | |- match solve _ _ _ _ _ _ _ _ _ ?X with _ => _ end = _ -> _ =>
+            destruct (solve T t_eqb univ null union inter (single fam) f fu X) as [rr| |] eqn:Sf;
+              try (intros H; discriminate H)
+        end.
+        match goal with
+        | |- _ -> match solve _ _ _ _ _ _ _ _ _ ?X with _ => _ end = _ -> _ =>
+            destruct (solve T t_eqb univ null union inter (single fam) f' fu' X) as [rr'| |] eqn:Sf';
+              try (intros _ H; discriminate H)
+        end.
+        intros Eb Ec. inversion Eb; inversion Ec. cbn [fst snd]. split; [reflexivity|].
+        exact (proj1 (wiso_solve_L T t_eqb univ null union inter P leq L (single fam) r g f f' _ _
+                        fu fu' rr rr' (Hs fam) (Hpos fam) W Hwf Xo Xo' Xp Sf Sf')).
+    Qed.
+  End Family.
+End WRunAll.
